@@ -109,14 +109,14 @@ def run_impl(kind, dur, readings, ops, stamp0=None):
         if "t" not in box:
             return outs, obs
         t = box["t"]
-        obs.append(attrs(t) + (ft.now,))
+        obs.append(attrs(t) + (ft.now, F(getattr(t, 'duration', None))))
         for op in ops:
             if op[0] == "stamp":
                 store.stamp = op[1]
-                obs.append(attrs(t) + (F(op[1]),))
+                obs.append(attrs(t) + (F(op[1]), F(getattr(t, 'duration', None))))
                 continue
             outs.append(guarded(lambda: apply_op(t, op)))
-            obs.append(attrs(t) + (F(ft.now) if kind != "store" else F(store.stamp),))
+            obs.append(attrs(t) + (F(ft.now) if kind != "store" else F(store.stamp), F(getattr(t, 'duration', None))))
         if kind != "store":
             outs.append(("L", len(ft.readings)))
         return outs, obs
@@ -125,6 +125,32 @@ def run_impl(kind, dur, readings, ops, stamp0=None):
 
 
 # --------------------------------------------------------------------------- property statement
+def ref_duration(rdur, op):
+    """the timer's duration after op, per the statement: restart(duration=d) -> |d|, extend(e) ->
+    |duration + e| (e missing: doubles), everything else keeps it"""
+    if op[0] == "restart" and op[2] is not None:
+        return abs(Fraction(op[2]))
+    if op[0] == "extend":
+        return abs(rdur + (rdur if op[1] is None else Fraction(op[1])))
+    return rdur
+
+
+CHECK_ATTR = [True]   # search() switches the .duration attribute test off to find a behavioural consequence
+
+
+def duration_check(i, op, st, rdur):
+    """after every op: stop = start + duration and the .duration attribute is that duration"""
+    if st[0] is None or st[1] is None:
+        return None
+    if st[1] - st[0] != rdur:
+        return ("stop-vs-duration: after op %d %r: start %s stop %s (.duration %s), but the timer's duration is %s "
+                "and stop must be start + duration" % (i, op, st[0], st[1], st[4], rdur))
+    if CHECK_ATTR[0] and st[4] != rdur:
+        return ("duration-attribute: after op %d %r: .duration is %s, but the timer's duration is %s (start %s stop %s)"
+                % (i, op, st[4], rdur, st[0], st[1]))
+    return None
+
+
 def prop_check(kind, dur, readings, ops, stamp0=None):
     """The property's statement, executable, on the IMPLEMENTATION alone.
     Returns None or a description of the failure."""
@@ -154,6 +180,10 @@ def prop_check(kind, dur, readings, ops, stamp0=None):
         latest = r2
         base = None   # last elapsed seen since the last (re)start
         prev = obs[0]
+        rdur = abs(Fraction(dur))
+        why = duration_check(-1, ("constructor",), prev, rdur)
+        if why:
+            return why
         for i, op in enumerate(ops):
             r = nxt()
             o = outs[i + 1]
@@ -195,6 +225,10 @@ def prop_check(kind, dur, readings, ops, stamp0=None):
                 base = None
             if op[0] in ("elapsed", "remaining", "expired") and (st[0], st[1]) != (pstart, pstop):
                 return "op %d: start/stop not shifted by the backward jump exactly" % i
+            rdur = ref_duration(rdur, op)
+            why = duration_check(i, op, st, rdur)
+            if why:
+                return why + " history %r" % (ops[:i + 1],)
             prev = st
         return None
     # Timer / StoreTimer
@@ -217,6 +251,7 @@ def prop_check(kind, dur, readings, ops, stamp0=None):
     if (prev[0], prev[1]) != (want0, want0 + abs(Fraction(dur))):
         return "constructor: start/stop %s/%s, expected %s/%s" % (prev[0], prev[1], want0, want0 + abs(Fraction(dur)))
     j = 0
+    rdur = abs(Fraction(dur))
     for i, op in enumerate(ops):
         st = obs[i + 1]
         if op[0] == "stamp":
@@ -265,6 +300,10 @@ def prop_check(kind, dur, readings, ops, stamp0=None):
             if ws is not None and (st[0], st[1]) != (ws, ws + wd):
                 return "op %d %r: start/stop %s/%s, expected %s/%s (clock %s)" % (
                     i, op, st[0], st[1], ws, ws + wd, stamp if kind == "store" else cur[0])
+        rdur = ref_duration(rdur, op)
+        why = duration_check(i, op, st, rdur)
+        if why:
+            return why
         prev = st
     return None
 
@@ -430,6 +469,21 @@ def histories(ctx):
                     if n == 2 and not ctx.thorough and ctx.rng.random() > 0.25:
                         continue
                     yield ("store", 2.0, [], h, s0, "small")   # stamps 0,2,3,5 hit start + 2 exactly
+    # extend followed by repeat / restart() / restart(duration) / extend, all classes, queries after every op
+    q = [("remaining",), ("expired",), ("elapsed",)]
+    for e1 in (("extend", 5.0), ("extend", None), ("extend", -1.5)):
+        for follow in (("repeat",), ("restart", None, None), ("extend", 5.0), ("extend", None), ("restart", 3.0, None)):
+            body = [e1] + q + [follow] + q + [("repeat",)] + q
+            for kind in ("timer", "mono_retro", "mono_raise"):
+                n = len(body) + 2
+                yield (kind, 10.0, [100.0 + 2.0 * k for k in range(n)], body, None, "extend-then")
+                yield (kind, 10.0, [100.0] * 2 + [113.0 + 6.0 * k for k in range(n)], body, None, "extend-then")
+            yield ("mono_retro", 10.0, [100.0, 100.0, 104.0, 60.0, 61.0, 62.0, 63.0, 40.0] + [45.0 + 4.0 * k for k in range(12)],
+                   body, None, "extend-then")
+            h = []
+            for k, o in enumerate(body):
+                h += [("stamp", 2.0 + 3.0 * k), o]
+            yield ("store", 10.0, [], h, 0.0, "extend-then")
     # zeros: start / stop / explicit start exactly 0.0 while the stamp has moved on (and Timer with clock 0)
     for d0 in (0.0, 2.0):
         for o in ALPHA + [("restart", 0.0, None), ("restart", 0.0, 1.0)]:
@@ -553,6 +607,33 @@ def run(ctx):
         consider(kind, dur, readings, ops, s0)
         best.pop("_size", None)
         best["other_failing_inputs"] = [v[1] for _, v in sorted(others.items())][:8]
+        if best["why"].startswith("duration-attribute"):
+            # the stale attribute alone is already a failure; also show its smallest visible consequence
+            CHECK_ATTR[0] = False
+            try:
+                vis = None
+                for m in metas:
+                    if vis is not None and len(m[3]) + len(m[2]) >= vis[0]:
+                        continue
+                    why = prop_check(*m[:5])
+                    if why:
+                        vis = (len(m[3]) + len(m[2]), m, why)
+                if vis is not None:
+                    kind, dur, readings, ops, s0 = vis[1][:5]
+                    ops = list(ops)
+                    i = 0
+                    while i < len(ops):          # drop ops greedily (readings are kept)
+                        cand = ops[:i] + ops[i + 1:]
+                        if prop_check(kind, dur, readings, cand, s0):
+                            ops = cand
+                        else:
+                            i += 1
+                    outs, _ = run_impl(kind, dur, readings, ops, s0)
+                    best["visible_consequence"] = dict(ser(kind, dur, readings, ops, s0),
+                                                       why=prop_check(kind, dur, readings, ops, s0),
+                                                       impl_outputs=[[str(x) for x in o] for o in outs])
+            finally:
+                CHECK_ATTR[0] = True
         return best
 
     ctx.settle(search)
